@@ -17,11 +17,14 @@ pub struct Call {
     /// mixed-method runs: 0 = without replacement, 1 = with replacement, 2 = the run's own mode,
     /// 4..=7 = explicit sink and mode (4 + replacement + 2 x UTF-16 sink)
     pub method: u8,
+    /// &mut str sinks: exact prior content of the destination (valid UTF-8 of `cap` bytes)
+    /// instead of the pre-fill byte
+    pub prior: Option<String>,
 }
 
 impl Call {
     pub fn new(src: &[u8], cap: usize, last: bool) -> Call {
-        Call { src: src.to_vec(), cap, last, fill: 0xA5, dalign: 0, salign: 0, method: 2 }
+        Call { src: src.to_vec(), cap, last, fill: 0xA5, dalign: 0, salign: 0, method: 2, prior: None }
     }
     pub fn repl(&self, default: bool) -> bool {
         match self.method {
@@ -60,6 +63,10 @@ impl Call {
             .set("dalign", J::i(self.dalign as usize))
             .set("salign", J::i(self.salign as usize))
             .set("method", J::i(self.method as usize))
+            .set("prior", match &self.prior {
+                Some(p) => J::s(p),
+                None => J::Null,
+            })
     }
     pub fn from_json(j: &crate::json::J) -> Call {
         Call {
@@ -70,6 +77,7 @@ impl Call {
             dalign: j.get("dalign").unwrap().as_i64().unwrap() as u8,
             salign: j.get("salign").unwrap().as_i64().unwrap() as u8,
             method: j.get("method").and_then(|x| x.as_i64()).unwrap_or(2) as u8,
+            prior: j.get("prior").and_then(|x| x.as_str()).map(|x| x.to_string()),
         }
     }
 }
@@ -117,7 +125,7 @@ pub fn run_decoder_calls(e: &Enc, bom: BomMode, sink: Sink, repl: bool, calls: &
     for (i, c) in calls.iter().enumerate() {
         let sink = c.sink(sink);
         let fill = if sink == Sink::Str { c.fill & 0x7F } else { c.fill };
-        let d = Dst { cap: c.cap, fill, align: c.dalign as usize, prior: None };
+        let d = Dst { cap: c.cap, fill, align: c.dalign as usize, prior: c.prior.as_deref().filter(|p| sink == Sink::Str && p.len() == c.cap) };
         let o = match with_aligned_src(&c.src, c.salign as usize, |s| call_decoder(&mut dec, sink, c.repl(repl), s, c.last, &d)) {
             Ok(o) => o,
             Err(m) => {
